@@ -199,6 +199,17 @@ Theorem C17_client_view : forall e fl,
 Proof. exact client_view_consistent. Qed.
 Print Assumptions C17_client_view.
 
+(* several entity declarations in one file: the result is the concatenation of the single
+   expansions (so every theorem above applies to each part) and is closed as a whole *)
+Theorem C17_file_is_concat : forall es cs, compile_all es = Ok cs ->
+  exists l, Forall2 (fun e c => compile e = Ok c) es l /\ cs = concat l.
+Proof. exact compile_all_inv. Qed.
+Print Assumptions C17_file_is_concat.
+
+Theorem C17_file_closed : forall es cs, compile_all es = Ok cs -> closed cs = true.
+Proof. exact compile_all_closed. Qed.
+Print Assumptions C17_file_closed.
+
 (* the documented names (README: FooKeys, FooQueryService, FooPublishTopic) for
    UpperCamel entity names *)
 Theorem C17_names_upper_camel : forall e,
